@@ -511,6 +511,11 @@ class PatGen:
             shape = "closed"
         lo = x - step * r.choice([0, 0, 1, 3])
         hi = x + step * r.choice([0, 0, 1, 3])
+        if k == "char":
+            lo, hi = max(48, min(122, lo)), max(48, min(122, hi))
+            lo, hi = min(lo, hi), max(lo, hi)
+            if chr(lo) in "'\\" or chr(hi) in "'\\":
+                lo, hi = 97, 122
         if shape == "closed":
             return mk(lo), mk(hi), True
         if shape == "half":
